@@ -32,6 +32,9 @@ CLAIMED = {
     "C05": ("Policy-evaluation step = expected one-step value under the state's own action for EVERY layout; the evaluation loop returns the pre-update iterate on a passed test and the last iterate on an exhausted budget; converged max_diff evaluation is within epsilon/gamma of the exact policy value; PI stops before its limit iff the improvement step changed no action; the stored policy is greedy for the stored values after every step; first policy = problem's initial policy or argmax of expected immediate reward; reset option. Tied by evaluating injected policies (public route) and whole runs bit-exactly.",
             "Coq 8.16.1 kernel; PI step/evaluation hand-modelled tied by correspondence; loop skeleton and thresholds translated from source.",
             "Coq proof + bit-exact correspondence on injected policies and whole PI runs", "6 C05"),
+    "C07": ("About the index / exponent / guard expressions translated from periodic_value_iteration.py on every run: the circular-buffer invariant (slot i mod (p+1) holds V_i for the last p+1 iterates) holds after ANY number of sweeps; the number compared with epsilon equals the documented measure of the true VI iterates (infinite before a full period, span(V_n - V_(n-p)) for gamma = 1, span of the discount-corrected sum otherwise); solve() from the fresh solver returns plain VI iterates, the greedy policy, stops at the FIRST n >= p below epsilon; d-step gain bracket and |V_n - V_(n-p) - p g*| < eps at convergence for gamma = 1 with no aperiodicity assumption. Runs (incl. periodic cycles, buffers wrapping >= 5 times, history clearing) compared bit-exactly incl. the whole value_history.",
+            "Coq 8.16.1 kernel; translator gen_periodic.py; the sweep itself and numpy buffer mutation are hand-modelled (functional update) and tied by correspondence; gamma restricted to powers of two in the exact regime.",
+            "Coq proof over source-translated index expressions + bit-exact run/buffer correspondence", "6 C07"),
 }
 
 man = {
